@@ -103,19 +103,65 @@ def check_escapes(cx, chk, g):
                 chk.violation("C12.simple", pr.split(" decodes")[0][:60], pr, cx.site(b))
         else:
             chk.ok("C12.simple", "simple escapes", {"map": {rule_literal(g, vn): got[vn] for vn in variants}})
-    # ---- \xXX
+    # ---- \\xXX and \\u / \\U / \\u{}: read off the semantic summaries of the two conversions
+    from .. import sem
+    P1 = mir.mk("param", 1)
+
+    def strip_casts(x):
+        while x[0] == "cast":
+            x = x[2]
+        return x
+
+    def digit_term(x, field, optional):
+        """x == (to_digit(<self.field or its Some payload>, 16) as Some).0"""
+        x = strip_casts(x)
+        if not (x[0] == "field" and x[2] == "0" and x[1][0] == "downcast" and x[1][2] == "Some" and is_call(x[1][1], "to_digit")):
+            return False
+        td = x[1][1]
+        if len(td[2]) != 2 or td[2][1] != ("const", "u32", 16):
+            return False
+        src = td[2][0]
+        base = mir.mk("field", P1, field)
+        return src == (mir.mk("field", mir.mk("downcast", base, "Some"), "0") if optional else base)
+
+    def fold_is(x, present, optional_from=1):
+        """x == ((d(f0)*16 + d(f1))*16 + ...) over the present digit fields, in order"""
+        fs = list(present)
+        cur = strip_casts(x)
+        while len(fs) > 1:
+            if not (cur[0] == "binop" and cur[1] == "Add"):
+                return False
+            l, r = strip_casts(cur[2]), cur[3]
+            if not digit_term(r, fs[-1][0], fs[-1][1]):
+                return False
+            if not (l[0] == "binop" and l[1] == "Mul" and l[3][0] == "const" and l[3][2] == 16):
+                return False
+            cur = strip_casts(l[2])
+            fs.pop()
+        return digit_term(cur, fs[0][0], fs[0][1])
+    S = sem.Sem(cx, cg, max_leaves=4000)
     ps = [p for p in cg.fns if "HexaEscape> for char" in p and last(p) == "from" and "mir" in cg.fns[p]]
     if not ps:
         chk.anchor_missing("C12.hex", "From<&HexaEscape> for char")
     else:
         b = cx.body(cg, ps[0])
-        ds = b.defs.get(0, [])
-        e = norm(b.expr_call(ds[0][3])) if len(ds) == 1 and ds[0][2] == "call" else None
-        if e is not None and is_call(e, "into", "from") and fold_matches(e[2][0], ["c1", "c2"]):
+        probs = []
+        try:
+            sm = S.summarize(ps[0])
+            rets = [l for l in sm.leaves if l.kind == "return"]
+            if not rets:
+                probs.append("no returning path")
+            for l in rets:
+                e = l.ret
+                v = e[2][0] if is_call(e, "into", "from") and e[2] else e
+                if not fold_is(v, [("c1", False), ("c2", False)]):
+                    probs.append(mir.show(e)[:200])
+        except sem.SemLimit as ex:
+            probs.append(str(ex))
+        if not probs:
             chk.ok("C12.hex", "\\xXX", {"value": "digit(c1)*16 + digit(c2)"})
         else:
-            chk.violation("C12.hex", "\\xXX", "\\xXX is not decoded as digit(c1)*16 + digit(c2): %s" % (mir.show(e)[:200] if e else "?"), cx.site(b))
-    # ---- \u / \U / \u{}
+            chk.violation("C12.hex", "\\xXX", "\\xXX is not decoded as digit(c1)*16 + digit(c2): %s" % probs[0], cx.site(b))
     ps = [p for p in cg.fns if "Utf8Escape> for char" in p and last(p) == "try_from" and "mir" in cg.fns[p]]
     adt = [a for q, a in cg.adts.items() if q.endswith("::Utf8Escape")]
     if not ps or not adt:
@@ -123,41 +169,52 @@ def check_escapes(cx, chk, g):
     else:
         b = cx.body(cg, ps[0])
         fields = [f["name"] for f in adt[0]["variants"][0]["fields"]]
-        npaths = 0
         probs = []
-        for pth in finite.paths_between(b, 0, b.returns):
-            atoms = finite.edge_atoms(b, pth)
-            present = [fields[0]]
-            for f in fields[1:]:
-                v = [val for (e, val, _) in atoms if e == ("discr", ("field", ("param", 1), f))]
-                if v and v[0] == 1:
-                    present.append(f)
-            env = finite.SymExec(b).run(pth)
-            ret = env.get(0)
-            if ret is None:
-                ds = [d for d in b.defs.get(0, []) if d[0] in pth]
-                ret = None
-            # last call on the path produces _0
-            last_call = b.blocks[pth[-2]]["term"] if len(pth) > 1 else None
-            if last_call and last_call["k"] == "call" and last_call["dest"]["l"] == 0:
-                sx = finite.SymExec(b)
-                env = sx.run(pth[:-1] + [pth[-1]])
-                ret = mir.mk("call", last_call["func"]["path"], tuple(sx.op(a, env) for a in last_call["args"]))
-            npaths += 1
-            if ret is None or not is_call(ret, "ok_or_else", "ok_or"):
-                probs.append("path with digits %s does not end in char::from_u32(..).ok_or_else(..): %s" % (present, mir.show(ret)[:120] if ret else None))
+        combos = set()
+        try:
+            sm = S.summarize(ps[0])
+        except sem.SemLimit as ex:
+            sm = None
+            probs.append(str(ex))
+        for l in (sm.leaves if sm is not None else []):
+            if l.kind != "return":
                 continue
-            fu = ret[2][0]
-            if not (is_call(fu, "from_u32") and fold_matches(fu[2][0], present)):
-                probs.append("with digits %s present the code point is %s, documented: left fold acc*16+digit in order" % (present, mir.show(finite.plain_arith(fu[2][0]))[:200] if is_call(fu, "from_u32") else mir.show(fu)[:120]))
+            present = [(fields[0], False)]
+            undecided = False
+            for f in fields[1:]:
+                k = l.facts.get(mir.mk("discr", mir.mk("field", P1, f)))
+                if k == 1:
+                    present.append((f, True))
+                elif k != 0:
+                    undecided = True
+            names = [f for f, _ in present]
+            if undecided:
+                probs.append("a path does not look at every optional digit (saw %s)" % names)
+                continue
+            combos.add(tuple(names))
+            fu = [s_ for (a, v) in l.assume for s_ in walk(a) if is_call(s_, "from_u32")] + [s_ for s_ in walk(l.ret) if is_call(s_, "from_u32")]
+            if not fu:
+                probs.append("path with digits %s does not go through char::from_u32" % names)
+                continue
+            if not fold_is(fu[0][2][0], present):
+                probs.append("with digits %s present the code point is %s, documented: left fold acc*16+digit in order" % (names, mir.show(fu[0][2][0])[:200]))
+                continue
+            k = l.facts.get(mir.mk("discr", fu[0]))
+            r = l.ret
+            if k == 1 and not (r[0] == "agg" and r[2] == "Ok" and r[3][0][1] == mir.mk("field", mir.mk("downcast", fu[0], "Some"), "0")):
+                probs.append("a valid code point is not returned as the character: %s" % mir.show(r)[:120])
+            if k == 0 and not (r[0] == "agg" and r[2] == "Err"):
+                probs.append("an invalid code point is not an error: %s" % mir.show(r)[:120])
+            if k not in (0, 1):
+                probs.append("the result of char::from_u32 is not examined")
         if fields != ["c1", "c2", "c3", "c4", "c5", "c6"]:
             probs.append("digit fields are %s" % fields)
         if probs:
             for pr in sorted(set(probs))[:3]:
                 chk.violation("C12.hex", "utf8-escape " + pr.split(" present")[0][:50], pr, cx.site(b))
         else:
-            chk.ok("C12.hex", "\\u / \\U / \\u{}", {"paths": npaths, "value": "fold(acc*16 + digit) over present digits in order; from_u32 None -> Err"})
-        chk.floor("C12.hex", "digit-presence paths of the unicode escape", npaths, 32)
+            chk.ok("C12.hex", "\\u / \\U / \\u{}", {"digit_combinations": len(combos), "value": "fold(acc*16 + digit) over present digits in order; from_u32 None -> Err"})
+        chk.floor("C12.hex", "digit-presence combinations of the unicode escape", len(combos), 32)
     # HexChar admits only hex digits (discharges the to_digit unwraps)
     hc = g.rule("HexChar")
     okhex = False
